@@ -4,7 +4,7 @@
    le_len/le_encode/le_decode (low entropy body codec) are universally quantified; what is assumed
    of them is written as premises of each theorem. *)
 From Coq Require Import List NArith ZArith Bool.
-From M Require Import gen.Consts model.TcpStream model.TcpStreamWire proofs.TcpStreamProofs proofs.TcpStreamInst proofs.TcpStreamExamples proofs.TcpStreamBackpressure.
+From M Require Import gen.Consts model.TcpStream model.TcpStreamWire proofs.TcpStreamProofs proofs.TcpStreamInst proofs.TcpStreamExamples proofs.TcpStreamBackpressure proofs.TcpStreamWriteValue.
 Import ListNotations.
 Open Scope N_scope.
 
@@ -184,3 +184,26 @@ Theorem C01_backpressure_lossless : forall (cap : nat) (evs : list hev) (st : hs
   (length (rd_queue (h_rd st')) <= Nat.max cap (length (rd_queue (h_rd st))))%nat.
 Proof. exact backpressure_lossless. Qed.
 Print Assumptions C01_backpressure_lossless.
+
+(* Write has value semantics.  plan_events / serialize take the written bytes as values; the code takes them from
+   a caller-owned mutable buffer and returns from Write before the queued segment is encrypted.  Because the
+   enqueue copies (copy = true), for ANY sequence of steps (the application refills its buffer | Write | the output
+   goroutine encrypts what is queued) what is sent after the final flush is exactly the list of buffer contents at
+   the moments of the Write calls, i.e. the planner is handed b_1, ..., b_n and the stream carries b_1 ++ ... ++ b_n
+   (by C01_plan_concat / C01_tcp_integrity), whatever the application does to its buffer after Write returned. *)
+Theorem C01_write_captures_value : forall steps : list astep,
+  let st := a_run true a_init (steps ++ [AFlush]) in
+  a_queue st = [] /\ a_sent st = values_written [] steps /\
+  forall mode, written (map (WWrite mode) (a_sent st)) = concat (values_written [] steps).
+Proof. exact write_captures_value. Qed.
+Print Assumptions C01_write_captures_value.
+
+(* the aliasing variant (the queued segment keeps a reference to the caller's buffer, copy = false) is refuted by
+   two writes from one reused buffer: the stream carries b_2 b_2 instead of b_1 b_2 *)
+Theorem C01_write_alias_refuted :
+  values_written [] alias_witness = [[1; 1; 1]; [2; 2; 2]] /\
+  a_sent (a_run false a_init (alias_witness ++ [AFlush])) = [[2; 2; 2]; [2; 2; 2]] /\
+  a_sent (a_run true a_init (alias_witness ++ [AFlush])) = [[1; 1; 1]; [2; 2; 2]] /\
+  exists steps, a_sent (a_run false a_init (steps ++ [AFlush])) <> values_written [] steps.
+Proof. exact write_alias_refuted. Qed.
+Print Assumptions C01_write_alias_refuted.
